@@ -172,6 +172,24 @@ P("C09",
                "|coordinates| <= 2^22 so that int arithmetic on pin positions cannot overflow"])
 
 
+CIRCUIT_RULE = ("circuits constructed from a choice tape: scale (unit / decade / nanometre up to 2^22), 1..8 row levels "
+                "(16 thorough) with gaps, split rows and three orientation patterns, 0..6 fixed cells (obstruction inside / "
+                "partial / enclosing, outside, non-obstruction, zero-size terminal), 1..24 movable cells (60 thorough: single-row, "
+                "multi-row, macros, all 8 orientations for cells without polarity, matched and mismatched polarities), "
+                "utilisation sparse / tight / exactly full / over-full, starts spread / clustered / far outside / on obstructions / "
+                "constructed legal, nets with pins inside, on and outside the outline, parameters drawn field by field from the "
+                "range the parameter check accepts. ")
+
+P("C01",
+  rc={"quick": (12, 10000, 100, 8), "thorough": (14, 100000, 100, 16)},
+  fuzz={"quick": None, "thorough": (2, 300000, 4096)},
+  rule=CIRCUIT_RULE + "Oracle: geometric legality predicate over placed rectangles (independent free-space sweep), unchanged "
+       "placement after a throw, must-return on the trivially feasible class. non-trivial = >= 2 movable cells and one of "
+       "{obstruction intersecting a row, split row, multi-row cell, utilisation >= 80%, a start position outside the area}; "
+       "distinct = hash of the circuit.",
+  assumptions=["rows are uniform-height and pairwise disjoint by construction; movable cells have placed height a positive multiple of the row height"])
+
+
 # ----------------------------------------------------------------------------
 def sh(cmd, **kw):
     return subprocess.run(cmd, stdout=subprocess.PIPE, stderr=subprocess.STDOUT, text=True, **kw)
